@@ -10,7 +10,9 @@ import json
 from sim.prng import Stream
 
 ID = 'C15'
-RULE = ('a case = 2 layer types x up to 4 patterns each (unconstrained, depthwise, 3x3, user stride-2) '
+RULE = ('run indices 0..259 are systematic: every registration order of every subset of the 4 patterns (65 sequences) x '
+        '{Conv2d, Conv1d} x both defaults, all 8 probe layers looked up after every registration; the other runs are seeded: '
+        'a case = 2 layer types x up to 4 patterns each (unconstrained, depthwise, 3x3, user stride-2) '
         'registered by 2-3 interleaved registrant tasks, with lookups / PIT constructions / cost reads '
         'interleaved; distinct = distinct normalised op list; non-trivial = at least one lookup or PIT '
         'cost was checked against the reference while >=2 patterns of that layer type were registered '
@@ -45,7 +47,37 @@ def layer_spec(tname, dw, k3, s2):
             'kernel_size': [3 if k3 else 5] * nd, 'stride': [2 if s2 else 1] * nd}
 
 
+def _all_sequences():
+    import itertools
+    seqs = []
+    for k in range(0, len(PATS) + 1):
+        for sub in itertools.combinations(PATS, k):
+            for perm in itertools.permutations(sub):
+                seqs.append(list(perm))
+    return seqs          # 65 ordered sequences of distinct patterns
+
+
 def generate(seed, run, tier):
+    nseq = 65
+    if run < 4 * nseq:
+        # systematic part (both tiers): every registration order of every subset of the 4 patterns of one layer
+        # type, both default behaviours, with all 8 probe layers looked up after every registration
+        seq = _all_sequences()[run % nseq]
+        t = 'Conv2d' if (run // nseq) % 2 == 0 else 'Conv1d'
+        default = 'zero' if run < 2 * nseq else 'fail'
+        ops = []
+
+        def probes():
+            for bits in range(8):
+                ops.append({'op': 'lookup', 'type': t, 'dw': bool(bits & 1), 'k3': bool(bits & 2), 's2': bool(bits & 4)})
+        probes()
+        for i, p in enumerate(seq):
+            ops.append({'op': 'reg', 'task': i % 2, 'type': t, 'pat': p, 'fid': i + 1})
+            probes()
+        if t == 'Conv2d':
+            ops.append({'op': 'pit', 'net': run % 4, 'default_probe': False})
+        ops.append({'op': 'final_cross_check'})
+        return {'default': default, 'ops': ops, 'systematic': True}
     rs = Stream(seed, ID, run, 'schedule')
     sw = Stream(seed, ID, run, 'swarm')
     n_types = sw.randint(1, 2)
@@ -182,6 +214,7 @@ def execute(case):
     cmap = {'U': None, 'DW': P.conv_dw_constraint, 'K3': P.conv_3_constraint, 'S2': s2_constraint}
 
     events, failures, stats = [], [], {}
+    cover = {'pattern_set_and_order': set()}
 
     def bump(k, n=1):
         stats[k] = stats.get(k, 0) + n
@@ -189,6 +222,8 @@ def execute(case):
     def fail(clause, sig, msg):
         failures.append({'clause': clause, 'sig': sig, 'msg': msg})
 
+    if case.get('systematic'):
+        bump('systematic_registration_sequences')
     cs = CostSpec(shared=True, default_behavior=case['default'])
     fns = {}          # fid -> function
     ident = {}        # id(function) -> label
@@ -253,6 +288,8 @@ def execute(case):
                 label = 'KeyError'
             bump('lookups')
             bump('lookup_' + kindx)
+            cover['pattern_set_and_order'].add(tname.replace('Conv1d', 'conv').replace('Conv2d', 'conv') + ':' +
+                                               '>'.join(p for p, _ in registered[tname]))
             if n_reg >= 2 and noncanonical(tname):
                 nontrivial = True
                 bump('lookups_under_noncanonical_order')
@@ -423,4 +460,4 @@ def execute(case):
     import hashlib
     return {'failures': failures, 'events': events, 'stats': stats, 'steps': steps,
             'nontrivial': nontrivial, 'shape': hashlib.sha256(shape.encode()).hexdigest(),
-            'sim_time': steps}
+            'sim_time': steps, 'cover': {k: sorted(v) for k, v in cover.items()}}
